@@ -794,3 +794,27 @@ pub fn tier_of(case: &Value) -> crate::core::Tier {
         _ => crate::core::Tier::Quick,
     }
 }
+
+/// Deterministic *deep* trace: replays a long action sequence in lock-step (no branching). Used for
+/// histories far beyond the BFS bounds (hundreds of queued errors, counters crossing 256).
+/// Returns the number of steps executed; reports the first mismatch as a violation.
+pub fn deep_trace<Q: HasTree>(ctx: &crate::core::Ctx, name: &str, alphabet: Vec<Act>, script: &[usize]) -> u64 {
+    let m = DevModel::<Q>::new(name, alphabet, usize::MAX);
+    let (mut sys, mut rf) = m.init();
+    for (i, &a) in script.iter().enumerate() {
+        let r = crate::core::guarded(|| m.step(&mut sys, &mut rf, a));
+        let mm = match r {
+            Ok(Ok(())) => continue,
+            Ok(Err(mm)) => mm,
+            Err(p) => Mismatch { key: "panic".into(), what: format!("panic: {p}") },
+        };
+        ctx.violation(
+            1_000_000 + i as u64,
+            &format!("deep-{}", mm.key),
+            &format!("[{name}] at step {i} of a {}-step history (`{}`): {}", script.len(), m.render(a), mm.what),
+            json!({"kind": "deep-trace", "name": name, "upto": i + 1}),
+        );
+        return i as u64 + 1;
+    }
+    script.len() as u64
+}
